@@ -140,6 +140,23 @@ theorem mem_decls {f : Frame} {s : Nat} :
   simp [setKind]
 @[simp] theorem length_pin (syms : Syms) (i : Nat) : (pin syms i).length = syms.length := by
   simp [pin]
+/-- `pinLinks` is a sequence of `pin`s -/
+theorem pinLinks_ind (P : Syms → Prop) (hpin : ∀ a i, P a → P (pin a i)) : ∀ (fuel : Nat) (syms : Syms) (t : Nat), P syms →
+    P (pinLinks fuel syms t)
+  | 0, _, _, h => h
+  | fuel + 1, syms, t, h => by
+    simp only [pinLinks]
+    split
+    · exact h
+    · split
+      · exact hpin _ _ h
+      · exact pinLinks_ind P hpin fuel _ _ (hpin _ _ h)
+
+@[simp] theorem length_pinLinks (fuel : Nat) (syms : Syms) (t : Nat) : (pinLinks fuel syms t).length = syms.length :=
+  pinLinks_ind (fun a => a.length = syms.length) (fun a i h => by simp [h]) fuel syms t rfl
+
+@[simp] theorem length_pinIfWith (f : Frame) (syms : Syms) (i : Nat) : (pinIfWith f syms i).length = syms.length := by
+  unfold pinIfWith; split <;> simp
 @[simp] theorem length_newSymbol (syms : Syms) (k : SK) (n : Name) : (newSymbol syms k n).1.length = syms.length + 1 := by
   simp [newSymbol]
 @[simp] theorem ref_newSymbol (syms : Syms) (k : SK) (n : Name) : (newSymbol syms k n).2 = syms.length := rfl
